@@ -18,14 +18,14 @@ RULE = ('molecules of 1..12 fragments on a random reference: random overlaps bet
         'fragment. Non-trivial = molecule with at least one tied position or mate disagreement; distinct = distinct (molecule seed, variant).')
 ASSUMPTIONS = ['fragments are forced into one molecule through the internal add so the equality rules do not filter the input',
                'each fragment with a read 1 contributes one call per position: the higher-quality mate; equal quality with different bases, or N: no vote']
-MIN_NONTRIVIAL = {'quick': 400, 'thorough': 6000}
+MIN_NONTRIVIAL = {'quick': 300, 'thorough': 30000}
 REQUIRED_MONITORS = ['ret:get_consensus', 'ret:get_consensus_dove_safe', 'oracle:positions_compared', 'oracle:tied_positions', 'meta:permutations', 'meta:duplications']
 SHARD_TIMEOUT = {'quick': 900, 'thorough': 5400}
 REF_LEN = 400
 
 
 def gen_cases(tier, seed):
-    n = 320 if tier == 'quick' else 4000
+    n = 320 if tier == 'quick' else 30000
     return [{'i': i, 'seed': seed} for i in range(n)]
 
 
